@@ -489,7 +489,7 @@ func eiaBytesCase(c *mon.Case, m *macSpec, h zuc.EIA, msg []byte, n, extra int, 
 
 func eiaHist(x *mon.Ctx) {
 	setup(x)
-	walks := x.Scale(700, 12000)
+	walks := x.Scale(1500, 12000)
 	for ai := range macAlgs {
 		for i := 0; i < walks; i++ {
 			c := x.Begin("hist alg=%s-%d walk %d: random history over Write/Sum/Finish/Reset on one MAC object", macAlgs[ai].alg, 8*macAlgs[ai].tag, i)
@@ -510,6 +510,7 @@ func eiaHist(x *mon.Ctx) {
 			g := eiaGuard()
 			var absorbed []byte
 			var log []string
+			c.Detail("history", lazyLog{&log})
 			nops := 2 + r.Intn(14)
 			big := r.Intn(12) == 0
 			alive := true
@@ -572,9 +573,6 @@ func eiaHist(x *mon.Ctx) {
 					absorbed = absorbed[:0]
 				}
 				c.Event("mac_hist_ops", 1)
-			}
-			if !alive {
-				c.Detail("history", strings.Join(log, " ; "))
 			}
 			c.End()
 		}
